@@ -14,10 +14,12 @@ import (
 	"net"
 	"net/http"
 	"net/http/httptest"
+	"net/url"
 	"strconv"
 	"strings"
 	"sync"
 	"time"
+	"unicode/utf8"
 
 	"golang.org/x/net/http/httpguts"
 	"google.golang.org/grpc/codes"
@@ -306,6 +308,16 @@ func (w *worker) describe(req *http.Request, o *observation, tag, jv, jp string)
 	vtag := tag
 	if tag == "badparam" && !hasBadParamMarker(req.RequestURI) {
 		vtag = "none" // the mutation destroyed the marker: the claim cannot be re-validated
+	}
+	if strings.HasPrefix(tag, "badparam@") {
+		// systematic stream (params.go): exactly one malformed parameter, never mutated afterwards. Where the class
+		// can be re-validated independently it is: an ill-formed-UTF-8 class must really carry ill-formed UTF-8.
+		vtag = "badparam"
+		if strings.Contains(tag, "/utf8-") {
+			if un, err := url.PathUnescape(strings.ReplaceAll(req.RequestURI, "+", "%2B")); err != nil || utf8.ValidString(un) {
+				vtag = "none"
+			}
+		}
 	}
 	if tag == "badjson" && jp != "0" {
 		vtag = "none"
